@@ -92,3 +92,12 @@ Theorem multitaskbcd_history :
   (g_obj out = nil \/ mt_objective cfg K (g_s out) = Ok (last (g_obj out) PInf)).
 Proof. intros F H. exact (@mt_solve_history F H). Qed.
 Print Assumptions multitaskbcd_history.
+
+Require Import SK.Skel.GroupProxNewton.
+Theorem groupproxnewton_history :
+  forall {F} `{Num F} (cfg : @pn_config F) (K : @pn_kernels F) w_init Xw_init out,
+  gpn_solve cfg K w_init Xw_init = Ok out ->
+  length (g_obj out) = g_iters out /\ (g_iters out <= pn_max_iter cfg)%nat /\
+  (g_obj out = nil \/ gpn_objective cfg K (g_s out) = Ok (last (g_obj out) PInf)).
+Proof. intros F H. exact (@gpn_solve_history F H). Qed.
+Print Assumptions groupproxnewton_history.
